@@ -24,7 +24,7 @@ def tree_fixed():
         txt = open(os.path.join(framework.LEAN, "Nsq", "Gen", "Life.lean")).read()
     except OSError:
         return False
-    m = re.search(r"def removeGuard : List String := \[\s*(.*?)\]", txt, re.S)
+    m = re.search(r"def removeGuard : List String := \[\s*\n(.*)\n", txt)
     return bool(m) and "c.inFlightPQ[msg.index] != msg" in m.group(1)
 
 
